@@ -146,10 +146,10 @@ def _guard_equations(body, ex, facts, bb):
     return eqs
 
 
-def transmutes(an, rep):
+def transmutes(an, rep, crate=None):
     R = rep.rule("U2", "every transmute / transmute_copy::<S, D> is dominated by a castaway type-equality guard whose "
                        "most general unifier theta makes theta(S) == theta(D)")
-    core = an.core()
+    core = crate or an.core()
     n = 0
     for b in sorted(core.bodies.values(), key=lambda b: b.key):
         sites = []
@@ -189,14 +189,15 @@ def transmutes(an, rep):
                     ({k: types.show(v) for k, v in theta.items()}, types.show(s2), types.show(d2)), mir.loc(b, bb, si),
                     sample={"fn": b.key, "S": types.show(S), "D": types.show(D),
                             "theta": {k: types.show(v) for k, v in theta.items()}})
-    R.floor("transmute sites", n, 2)
+    if crate is None:
+        R.floor("transmute sites", n, 2)
     return R
 
 
-def uninit_apis(an, rep, extra_crates=()):
+def uninit_apis(an, rep, extra_crates=(), crate=None):
     R = rep.rule("U3", "no API that yields uninitialised / unchecked memory (MaybeUninit::assume_init, mem::uninitialized, "
                        "set_len, from_raw_parts, get_unchecked, ptr::read/write, ...) is called from desert_core")
-    core = an.core()
+    core = crate or an.core()
     n = 0
     for b in sorted(core.bodies.values(), key=lambda b: b.key):
         for bb, t, info in mir.calls(b):
